@@ -65,7 +65,7 @@ def check_encoding_chars(encoding_chars):
     if missing:
         raise InvalidEncodingChars('Missing required encoding chars')
 
-    values = [v for k, v in encoding_chars.items() if k in required]
+    values = [v for k, v in encoding_chars.items() if k in required or k == 'TRUNCATION']
     if len(values) > len(set(values)):
         raise InvalidEncodingChars('Found duplicate encoding chars')
 
